@@ -132,6 +132,10 @@ def run():
     # would belong to other positions than the ones returned
     rep.obligations.extend(o for o in c5 if o.id.split("[")[0] in ("apply.letters", "apply.member", "apply.affine"))
     rep.functions.append(func_source_info(REL, "SymmetryAnalyzer._find_wyckoff_ground_state"))
+    # spglib is asked about the analysed structure with the analyzer's tolerance; the simple getters are dataset look-ups (shared section)
+    from props import _sym as _symmod
+    from props._util import section as _section
+    _section(rep, "dataset", lambda: _symmod.dataset_section(rep))
     return rep
 
 
